@@ -1,6 +1,6 @@
 """L5 -- DiameterMessage: serialisation and Message Length bookkeeping (C01 message level)."""
 from pyvc.api import contract, T, Loop
-from pyvc.spec import implies, be, unbe, zeros, use_lemma, lib_error
+from pyvc.spec import ghost_get, ghost_set, implies, be, unbe, zeros, use_lemma, lib_error, seq_snoc, same, is_instance_of
 import bromelia.base as B
 from contracts.common import (enc_hdr, enc_of, header_shape, msg_shape, AVP_ELEM, cat, slen, cat_len,
                               any_avp_shape, avp_plen, view_vendor, data_of, MAX24)
@@ -99,13 +99,27 @@ class _Append:
     wire, the Message Length grows by exactly the AVP's on-wire size (length + padding)"""
     args = {"self": msg_shape(), "avp": any_avp_shape()}
     loops = {0: Loop(vars={"index": T.Int()}, inv=key_loop_inv)}
+    at_calls = True
+    modifies = {"self._avps": T.Seq(AVP_ELEM), "self._header._length": T.Bytes(3)}
+    open_dicts = ("self",)
+    raises = ()
 
     def requires(self, avp):
-        return avp_plen(view_vendor(avp), data_of(avp)) < MAX24 and \
+        return isinstance(avp, B.DiameterAVP) and avp_plen(view_vendor(avp), data_of(avp)) < MAX24 and \
             unbe(self._header._length) + avp_plen(view_vendor(avp), data_of(avp)) < MAX24
 
     def ensures_appended_last(self, avp, old):
-        return len(self._avps) == len(old.self._avps) + 1 and self._avps[len(self._avps) - 1] is avp
+        # the whole list: the old elements in their order, then avp (nothing else touched)
+        return self._avps == seq_snoc(old.self._avps, avp)
+
+    def ensures_frame(self, old):
+        return self._loaded == old.self._loaded \
+            and self._header._flags == old.self._header._flags \
+            and self._header._command_code == old.self._header._command_code \
+            and self._header._application_id == old.self._header._application_id \
+            and self._header._hop_by_hop == old.self._header._hop_by_hop \
+            and self._header._end_to_end == old.self._header._end_to_end \
+            and self._header._version == old.self._header._version
 
     def ensures_length_grows_by_wire_size(self, avp, old):
         return implies(not old.self._loaded,
@@ -122,3 +136,123 @@ class _Append:
         return implies(not old.self._loaded,
                        unbe(self._header._length) == unbe(old.self._header._length)
                        + 8 + len(data_of(avp)))
+
+
+# ------------------------------------------------------------------ extend
+def extend_inv(self, done, avps):
+    e = ghost_get("entry")
+    return self._avps == e.avps + done and self._loaded == e.loaded and same(self._header, e.header) \
+        and implies(not e.loaded, unbe(self._header._length) == e.length + slen(done)) \
+        and implies(e.loaded, unbe(self._header._length) == e.length)
+
+
+def extend_hint(avps, done, rest):
+    # re-mention slen(avps) so that it unfolds along done ++ [x] ++ rest
+    return use_lemma(cat_len, rest) and use_lemma(cat_len, done) and use_lemma(cat_len, avps)
+
+
+def snapshot(self):
+    return ghost_set("entry", Snapshot(list(self._avps), self._loaded, self._header,
+                                       unbe(self._header._length)))
+
+
+class Snapshot(object):
+    def __init__(self, avps, loaded, header, length):
+        self.avps = avps
+        self.loaded = loaded
+        self.header = header
+        self.length = length
+
+
+@contract("bromelia.base.DiameterMessage.extend", prop="C01", name="_")
+class _Extend:
+    """extend(avps) appends every element in order; Message Length grows by their total wire size"""
+    args = {"self": msg_shape(), "avps": T.Seq(AVP_ELEM)}
+    loops = {0: Loop(heap={"self._avps": T.Seq(AVP_ELEM), "self._header._length": T.Bytes(3)},
+                     open_dicts=("self",), inv=extend_inv, hint=extend_hint)}
+    setup_spec = snapshot
+    at_calls = True
+    modifies = {"self._avps": T.Seq(AVP_ELEM), "self._header._length": T.Bytes(3)}
+    open_dicts = ("self",)
+
+    def requires(self, avps):
+        return use_lemma(cat_len, avps) and unbe(self._header._length) + slen(avps) < MAX24
+
+    def ensures_all_appended_in_order(self, avps, old):
+        return self._avps == old.self._avps + avps
+
+    def ensures_length_grows_by_total_wire_size(self, avps, old):
+        return implies(not old.self._loaded,
+                       unbe(self._header._length) == unbe(old.self._header._length) + slen(avps)) \
+            and implies(old.self._loaded, self._header._length == old.self._header._length)
+
+    def ensures_frame(self, old):
+        return self._loaded == old.self._loaded and same(self._header, ghost_get("entry").header)
+
+
+# ------------------------------------------------------------------ __init__
+def init_inv(self, done, loaded):
+    L0 = ghost_get("len0")
+    return self._avps == done and self._loaded == loaded \
+        and implies(not loaded, unbe(self._header._length) == L0 + slen(done)) \
+        and implies(loaded, unbe(self._header._length) == L0)
+
+
+def init_hint(avps, done, rest):
+    return use_lemma(cat_len, rest) and use_lemma(cat_len, done) and use_lemma(cat_len, avps)
+
+
+def init_snapshot(header):
+    if header is None:
+        return ghost_set("len0", 20)
+    return ghost_set("len0", unbe(header._length))
+
+
+@contract("bromelia.base.DiameterMessage.__init__", prop="C01", name="_")
+class _MInit:
+    """DiameterMessage(header, avps, loaded): the AVP list is exactly `avps` in order; a message
+    built from parts gets Message Length = header's length + total wire size; a message decoded
+    from the wire (loaded=True) keeps the wire length; afterwards it is no longer 'loaded'"""
+    args = {"self": T.Obj(B.DiameterMessage, idict={}),
+            "header": T.OneOf(T.NoneS, header_shape()),
+            "avps": T.OneOf(T.NoneS, T.Seq(AVP_ELEM)),
+            "loaded": T.Bool()}
+    loops = {0: Loop(heap={"self._avps": T.Seq(AVP_ELEM), "self._header._length": T.Bytes(3)},
+                     vars={"idx": T.Int()}, open_dicts=("self",), inv=init_inv, hint=init_hint)}
+    setup_spec = init_snapshot
+
+    def requires(header, avps):
+        return avps is None or (use_lemma(cat_len, avps) and ghost_get("len0") + slen(avps) < MAX24)
+
+    def ensures_list_is_the_argument(self, avps):
+        if avps is None:
+            return len(self._avps) == 0
+        return self._avps == avps
+
+    def ensures_header_kept(self, header):
+        return header is None or same(self._header, header)
+
+    def ensures_default_header(self, header):
+        h = self._header
+        return header is not None or (h._version == b"\x01" and h._flags == zeros(1) and h._command_code == zeros(3)
+                                      and h._application_id == zeros(4) and h._hop_by_hop == zeros(4)
+                                      and h._end_to_end == zeros(4))
+
+    def ensures_length(self, header, avps, loaded):
+        L0 = ghost_get("len0")
+        if avps is None:
+            return unbe(self._header._length) == L0
+        return implies(not loaded, unbe(self._header._length) == L0 + slen(avps)) and \
+            implies(loaded, unbe(self._header._length) == L0)
+
+    def ensures_loaded_flag(self, avps, loaded):
+        if avps is None:
+            return self._loaded == loaded
+        return self._loaded == False
+
+    def exceptional(exc):
+        return False
+
+    def control_loaded_message_relengthed(self, avps, loaded):
+        L0 = ghost_get("len0")
+        return avps is None or implies(loaded, unbe(self._header._length) == L0 + slen(avps))
